@@ -56,6 +56,7 @@ pub fn worker_main(args: &[String]) -> i32 {
     let total: u64 = args[5].parse().expect("total");
     let fpfile = &args[6];
     crate::core::install_quiet_panic_hook();
+    std::env::set_var("QSIM_PHASE_FILE", format!("{fpfile}.phase"));
     let stdout = std::io::stdout();
     let mut w = std::io::BufWriter::new(stdout.lock());
     let mut counters: BTreeMap<String, u64> = BTreeMap::new();
@@ -114,6 +115,8 @@ pub fn one_main(args: &[String]) -> i32 {
     let r: u64 = args[3].parse().expect("r");
     crate::core::install_quiet_panic_hook();
     let case = cases::gen(prop, seed, tier, r);
+    std::env::set_var("QSIM_PHASE_FILE", tmp_dir().join(format!("one-{}.phase", std::process::id())));
+    println!("PHASEFILE {}", std::env::var("QSIM_PHASE_FILE").unwrap());
     println!("CASE {}", serde_json::to_string(&case).unwrap());
     std::io::stdout().flush().unwrap();
     if std::env::var("QSIM_TEST_STALL_AT").ok().and_then(|s| s.parse::<u64>().ok()) == Some(r) {
@@ -271,6 +274,9 @@ pub fn exec_case_main(path: &str) -> i32 {
 
 // ------------------------------------------------------------------------------------------------ supervisor
 
+/// Set once a scenario blocked under the cooperative scheduler: later workers skip the shuttle phase.
+static SHUTTLE_DISABLED: std::sync::atomic::AtomicBool = std::sync::atomic::AtomicBool::new(false);
+
 /// Upper bound on the wall-clock time of a single run before it counts as stalled.
 fn run_timeout_s(tier: Tier) -> u64 {
     std::env::var("QSIM_RUN_TIMEOUT_S")
@@ -353,7 +359,11 @@ fn run_worker(
     total: u64,
     fpfile: &Path,
 ) -> WorkerResult {
-    let mut child = Command::new(exe)
+    let mut cmd = Command::new(exe);
+    if SHUTTLE_DISABLED.load(std::sync::atomic::Ordering::SeqCst) {
+        cmd.env("QSIM_NO_SHUTTLE", "1");
+    }
+    let mut child = cmd
         .args([
             "worker",
             prop,
@@ -417,9 +427,15 @@ fn run_worker(
     }
     let status = child.wait().expect("wait worker");
     let stalled = watch.finish();
+    let _phase_cleanup = (); // the phase file is removed by the caller together with the fingerprint file
     if !res.done {
         use std::os::unix::process::ExitStatusExt;
-        let desc = if stalled {
+        let phase = std::fs::read_to_string(format!("{}.phase", fpfile.display())).unwrap_or_default();
+        let desc = if stalled && phase.trim() == "shuttle" {
+            // blocked while the cooperative scheduler was in charge: see thr.rs (std synchronisation primitives
+            // are not modelled by shuttle; a task that blocks on one blocks the whole simulation)
+            "stalled_in_shuttle_phase".to_string()
+        } else if stalled {
             "stalled".to_string()
         } else {
             match status.signal() {
@@ -462,17 +478,26 @@ pub fn run_batch(exe: &Path, prop: &str, tier: Tier, seed: u64, total: u64, work
             let mut results = vec![];
             let mut start = wi;
             let mut part = 0;
+            let mut stalls = 0;
             loop {
                 let fpfile = tmp.join(format!("{tag}-w{wi}-p{part}.fp"));
                 let res = run_worker(&exe, &prop, tier, seed, start, workers, total, &fpfile);
                 let died = res.died_at.clone();
+                let _ = std::fs::remove_file(format!("{}.phase", fpfile.display()));
                 results.push((res, fpfile));
                 match died {
-                    Some((r, _)) => {
+                    Some((r, desc)) => {
                         start = r + workers;
                         part += 1;
-                        // a lane whose workers keep dying is given up after 40 restarts (its first deaths are reported)
-                        if start >= total || part > 40 {
+                        if desc == "stalled_in_shuttle_phase" {
+                            SHUTTLE_DISABLED.store(true, std::sync::atomic::Ordering::SeqCst);
+                        }
+                        if desc.starts_with("stalled") {
+                            stalls += 1;
+                        }
+                        // a lane whose workers keep dying is given up after 40 restarts, or after 2 stalls (a stall
+                        // costs the whole watchdog period); its first deaths are reported
+                        if start >= total || part > 40 || stalls > 2 {
                             break;
                         }
                     }
@@ -528,6 +553,15 @@ pub fn run_batch(exe: &Path, prop: &str, tier: Tier, seed: u64, total: u64, work
         br.harness_notes.push(format!("{} further worker deaths were not re-executed individually", deaths.len() - 24));
         deaths.truncate(24);
     }
+    let shuttle_stalls: Vec<u64> = deaths.iter().filter(|d| d.1 == "stalled_in_shuttle_phase").map(|d| d.0).collect();
+    if !shuttle_stalls.is_empty() {
+        br.harness_notes.push(format!(
+            "the shuttle phase of run(s) {:?} blocked (a task blocked on a synchronisation primitive shuttle does not model, e.g. a std Mutex held across a scheduling point); this is an artefact of cooperative scheduling, not a verdict: the shuttle phase was skipped for the rest of the batch and concurrency is left to the Miri engine",
+            &shuttle_stalls[..shuttle_stalls.len().min(5)]
+        ));
+        *br.counters.entry("shuttle_phase_blocked".into()).or_insert(0) += shuttle_stalls.len() as u64;
+    }
+    deaths.retain(|d| d.1 != "stalled_in_shuttle_phase");
     for (r, desc) in deaths {
         let child = Command::new(&exe)
             .args(["one", prop, tier.name(), &seed.to_string(), &r.to_string()])
@@ -642,7 +676,14 @@ pub fn profiles(prop: &str) -> Vec<(String, PathBuf, u64)> {
     if prop == "C18" {
         // the schedule engine (shuttle) lives in its own build of the harness
         return match std::env::var("QSIM_BIN_SCHED") {
-            Ok(p) => vec![("sched".to_string(), PathBuf::from(p), 100)],
+            Ok(p) => {
+                let mut v = vec![("sched".to_string(), PathBuf::from(p), 100)];
+                // the sequential-purity part also runs with debug assertions and overflow checks (no shuttle there)
+                if let Ok(c) = std::env::var("QSIM_BIN_CHK") {
+                    v.push(("chk".to_string(), PathBuf::from(c), 100));
+                }
+                v
+            }
             Err(_) => {
                 eprintln!("HARNESS-ERROR: QSIM_BIN_SCHED is not set (run through /verif/check)");
                 std::process::exit(2)
@@ -684,7 +725,13 @@ fn minimise(exe: &Path, case: &Case, sig: &Sig) -> (Case, bool) {
         .args(["minimise", inp.to_str().unwrap(), outp.to_str().unwrap()])
         .stdout(Stdio::null())
         .stderr(Stdio::null())
-        .status();
+        .spawn()
+        .and_then(|mut child| {
+            let watch = Watchdog::start(child.id(), 240);
+            let st = child.wait();
+            watch.finish();
+            st
+        });
     let result = match status {
         Ok(_) => std::fs::read_to_string(&outp)
             .ok()
@@ -708,8 +755,16 @@ fn exec_in_child(exe: &Path, case: &Case) -> Vec<Violation> {
     }
     let out = Command::new(exe)
         .args(["exec-case", f.to_str().unwrap()])
+        .stdout(Stdio::piped())
         .stderr(Stdio::null())
-        .output();
+        .spawn()
+        .and_then(|child| {
+            // a case that blocks (see the shuttle note in thr.rs) must not block the supervisor
+            let watch = Watchdog::start(child.id(), 180);
+            let o = child.wait_with_output();
+            watch.finish();
+            o
+        });
     let _ = std::fs::remove_file(&f);
     match out {
         Ok(o) => String::from_utf8_lossy(&o.stdout)
